@@ -32,8 +32,8 @@ mkdir -p "$VERIF/seeded/$NAME"
 cp "$OUT/patch.diff" "$VERIF/seeded/$NAME/patch.diff"
 cp "$demo" "$VERIF/seeded/$NAME/"
 [ -f "$OUT/notes.md" ] && cp "$OUT/notes.md" "$VERIF/seeded/$NAME/notes.md"
-oracle=$(echo "$out" | sed -n 's/^  oracle   : //p' | head -1)
-op=$(echo "$out" | sed -n 's/^  op       : //p' | head -1)
+oracle=$(echo "$out" | sed -n 's/^\(\[unchecked\] \)\{0,1\}  oracle   : //p' | head -1)
+op=$(echo "$out" | sed -n 's/^\(\[unchecked\] \)\{0,1\}  op       : //p' | head -1)
 python3 - "$VERIF/seeded/$NAME/meta.json" "$PROP" "$NAME" "$NEEDS" "$rc" "$oracle" "$op" <<'EOF'
 import json,sys
 path,prop,name,needs,rc,oracle,op=sys.argv[1:8]
